@@ -518,6 +518,11 @@ func buildModelCase(root *xhtml.Node, base string, cfg config) *modelCase {
 					} else {
 						o.tab[okey(20, fmt.Sprint(my), "")] = "!"
 					}
+					if s, err := htmlRender(n); err == nil {
+						o.tab[okey(21, fmt.Sprint(my), "")] = hx(s)
+					} else {
+						o.tab[okey(21, fmt.Sprint(my), "")] = "!"
+					}
 				}
 			}
 		}
@@ -643,7 +648,7 @@ type pending struct {
 	cfg                config
 	g                  goRun
 	m                  *modelCase
-	htmlLit            bool // predicate `rdfa-html-literal-children` holds for the document
+	htmlLit            bool // the document is in the class of the fixed finding C11RA-rdf-html-literal
 }
 
 type harness struct {
@@ -703,8 +708,8 @@ func metadataNilDeref(g goRun) bool {
 	return strings.Contains(g.panic, "nil pointer dereference") && strings.Contains(g.stack, "inspecthtml.(*ParseMetadata).GetNodeMetadata")
 }
 
-// predicate `rdfa-html-literal-children`: some element carries @property and a @datatype whose value names rdf:HTML (ends in "HTML")
-// and has an element child: HTML+RDFa 1.1 makes its value the serialised children, the library takes the text content
+// class of the FIXED finding C11RA-rdf-html-literal (patch c11ra-1-fix-rdf-html-literal): some element carries @property and a
+// @datatype whose value names rdf:HTML (ends in "HTML") and has an element child. Only counted (histogram); nothing is tolerated.
 func htmlLiteralWithChildren(n *xhtml.Node) bool {
 	if n == nil {
 		return false
@@ -881,13 +886,6 @@ func (h *harness) flush() {
 			h.rep.Count("model:unordered")
 		}
 		h.rep.Count("outcome:" + goOutcome)
-		if f, ok := h.knownC11["C11RA-rdf-html-literal"]; ok && !same && p.htmlLit {
-			// proposed finding (props/C11RA.known-findings.proposed.json): inside the class either the current behaviour (text content)
-			// or the repaired one (serialised children) is accepted, so that an upstream repair raises no alarm
-			h.rep.Count("known:C11RA-rdf-html-literal")
-			h.rep.Add(vh.Case{Kind: "known", Key: f.Key, Op: "rdf:HTML literal", Go: goOutcome + " " + goS, Model: moS, Detail: truncate(caseDetail(p), 600)})
-			continue
-		}
 		if !same {
 			h.rep.Count("fail:disagreement:" + p.family)
 			h.rep.Add(vh.Case{Kind: "disagreement", Op: truncate(p.m.line(), 4000), Go: goOutcome + " " + goS, Model: truncate(answers[i], 20) + " " + moS, Detail: caseDetail(p)})
